@@ -358,33 +358,14 @@ Proof.
   - right. exact (cm_run_source_fault rsrc rsnext INJ mf Hnp calls (Datatypes.S (total_len ess)) srcs ds Hd Hb ltac:(lia)).
 Qed.
 
-Section Storages.
-  Variable compress : N -> N -> bytes -> outcome bytes.
+(* ================= the read side: opening files and merging their cursors ================= *)
+Section ReadSide.
   Variable decompress : N -> bytes -> outcome bytes.
-  Variable wc : wcfg.                         (* the configuration of the chunk writers *)
-  Hypothesis codec_ok : forall b z, compress (wc_codec wc) (wc_level wc) b = Done z -> decompress (wc_codec wc) z = Done b.
-  Hypothesis compress_total : forall b, exists z, compress (wc_codec wc) (wc_level wc) b = Done z.
-  Hypothesis HwL : wc_levels wc < 256.
-  Hypothesis HwI : 1 <= wc_interval wc.
-  Hypothesis HwK : wc_codec wc <= 5.
-
-  (* the physical envelope of one written file: the file and every block buffer below 2^64 bytes *)
-  Definition physb (file : bytes) (lg : list emitted) : bool :=
-    (len file <? 2^64) && forallb (fun e => len (em_bytes e) <? 2^64) lg.
 
   (* the file opens with the right count and its loader presents the entries *)
   Definition rep (f : bytes) (es : list entry) : Prop :=
     exists m, open_meta f = Done m /\ m_count m = len es /\
               store_of (load_block decompress f (m_codec m)) (m_root m) (m_levels m) es.
-
-  (* ---------------- the plain storage ---------------- *)
-  (* a chunk: the Writer over the chunk storage, entries inserted in order, into_inner *)
-  Definition write_chunk_file (es : list entry) : outcome bytes :=
-    match snd (w_run_plain compress wc es) with
-    | Done (s, lg, m) => if physb (vs_bytes s) lg then Done (vs_bytes s) else Fail EFuel
-    | Panic => Panic
-    | Fail e => Fail e
-    end.
 
   (* Reader::new(chunk).into_cursor(): the trailer, then a fresh cursor; also the stored entry count *)
   Definition open_chunk (f : bytes) : outcome (rsrc * N) :=
@@ -399,36 +380,6 @@ Section Storages.
   Definition merge_files (mf : mergefn) (calls : N) (fs : list bytes) : outcome (list entry * N) :=
     do x <- open_chunks fs;
     cm_run rsrc rsnext mf calls (S (N.to_nat (snd x))) (fst x).
-
-  Definition f_inserts := gf_inserts (fun _ => write_chunk_file) (fun _ => merge_files).
-  Definition f_finish := gf_finish (fun _ => write_chunk_file) (fun _ => merge_files).
-  Definition file_sorter_run := gf_run (fun _ => write_chunk_file) (fun _ => merge_files).
-
-  Lemma physb_true file lg : physb file lg = true -> len file < 2^64 /\ mem_ok lg.
-  Proof.
-    unfold physb. intro H. apply andb_true_iff in H. destruct H as [A B]. split; [apply N.ltb_lt; exact A|].
-    intros e He. rewrite forallb_forall in B. apply N.ltb_lt. exact (B e He).
-  Qed.
-
-  Theorem write_chunk_file_spec es : ssorted es -> entries_ok es -> len es + 1 <= U32_MAX ->
-    write_chunk_file es = Fail EFuel \/ exists f, write_chunk_file es = Done f /\ rep f es.
-  Proof.
-    intros Hs Hok Hlen.
-    destruct (w_run_progress compress decompress wc codec_ok compress_total es Hs Hok Hlen HwL) as (s & lg & m & Hrun).
-    unfold write_chunk_file, w_run_plain. rewrite Hrun. cbn [snd]. destruct (physb (vs_bytes s) lg) eqn:Ep; [right|left; reflexivity].
-    destruct (physb_true _ lg Ep) as [H64 Hmem]. exists (vs_bytes s). split; [reflexivity|].
-    unfold rep. destruct es as [|e0 es'].
-    - destruct (empty_run compress decompress wc codec_ok _ s lg m HwL HwI HwK Hrun H64 Hmem) as (Ho & Hn & Hc & Hlv & b & ridx & Hld & W).
-      exists m. split; [exact Ho|]. split; [exact Hn|]. right. split; [reflexivity|]. exists b, ridx. rewrite Hc. split; [exact Hld|exact W].
-    - set (es := e0 :: es') in *.
-      assert (Hne : es <> []) by discriminate.
-      assert (Hsb : sorted_strictb (map fst es) = true) by (apply sorted_strictb_SS; exact Hs).
-      destruct (written_file_wf compress decompress wc codec_ok es _ s lg m HwL HwI Hrun Hne Hsb H64 Hmem)
-        as (bstore & W & Hcont & _ & Hcd & Hcnt & Hlv & _).
-      destruct (written_file_roundtrip compress decompress wc codec_ok es _ s lg m HwL HwI HwK Hrun Hne Hsb H64 Hmem
-                  ltac:(change U32_MAX with 4294967295 in Hlen; lia)) as (Ho & _).
-      exists m. split; [exact Ho|]. split; [exact Hcnt|]. left. exists bstore. rewrite Hcd, Hlv. split; [exact W|exact Hcont].
-  Qed.
 
   (* opening the chunk files and merging their cursors = merging the entry lists *)
   Lemma open_chunks_spec : forall fs ess, Forall2 rep fs ess ->
@@ -447,6 +398,61 @@ Section Storages.
     rewrite Nat2N.id. apply cm_run_lists. exact F.
   Qed.
 
+End ReadSide.
+
+Section Storages.
+  Variable compress : N -> N -> bytes -> outcome bytes.
+  Variable decompress : N -> bytes -> outcome bytes.
+  Variable wc : wcfg.                         (* the configuration of the chunk writers *)
+  Hypothesis codec_ok : forall b z, compress (wc_codec wc) (wc_level wc) b = Done z -> decompress (wc_codec wc) z = Done b.
+  Hypothesis compress_total : forall b, exists z, compress (wc_codec wc) (wc_level wc) b = Done z.
+  Hypothesis HwL : wc_levels wc < 256.
+  Hypothesis HwI : 1 <= wc_interval wc.
+  Hypothesis HwK : wc_codec wc <= 5.
+
+  (* the physical envelope of one written file: the file and every block buffer below 2^64 bytes *)
+  Definition physb (file : bytes) (lg : list emitted) : bool :=
+    (len file <? 2^64) && forallb (fun e => len (em_bytes e) <? 2^64) lg.
+
+  (* ---------------- the plain storage ---------------- *)
+  (* a chunk: the Writer over the chunk storage, entries inserted in order, into_inner *)
+  Definition write_chunk_file (es : list entry) : outcome bytes :=
+    match snd (w_run_plain compress wc es) with
+    | Done (s, lg, m) => if physb (vs_bytes s) lg then Done (vs_bytes s) else Fail EFuel
+    | Panic => Panic
+    | Fail e => Fail e
+    end.
+
+  Definition f_inserts := gf_inserts (fun _ => write_chunk_file) (fun _ => (merge_files decompress)).
+  Definition f_finish := gf_finish (fun _ => write_chunk_file) (fun _ => (merge_files decompress)).
+  Definition file_sorter_run := gf_run (fun _ => write_chunk_file) (fun _ => (merge_files decompress)).
+
+  Lemma physb_true file lg : physb file lg = true -> len file < 2^64 /\ mem_ok lg.
+  Proof.
+    unfold physb. intro H. apply andb_true_iff in H. destruct H as [A B]. split; [apply N.ltb_lt; exact A|].
+    intros e He. rewrite forallb_forall in B. apply N.ltb_lt. exact (B e He).
+  Qed.
+
+  Theorem write_chunk_file_spec es : ssorted es -> entries_ok es -> len es + 1 <= U32_MAX ->
+    write_chunk_file es = Fail EFuel \/ exists f, write_chunk_file es = Done f /\ (rep decompress) f es.
+  Proof.
+    intros Hs Hok Hlen.
+    destruct (w_run_progress compress decompress wc codec_ok compress_total es Hs Hok Hlen HwL) as (s & lg & m & Hrun).
+    unfold write_chunk_file, w_run_plain. rewrite Hrun. cbn [snd]. destruct (physb (vs_bytes s) lg) eqn:Ep; [right|left; reflexivity].
+    destruct (physb_true _ lg Ep) as [H64 Hmem]. exists (vs_bytes s). split; [reflexivity|].
+    unfold rep. destruct es as [|e0 es'].
+    - destruct (empty_run compress decompress wc codec_ok _ s lg m HwL HwI HwK Hrun H64 Hmem) as (Ho & Hn & Hc & Hlv & b & ridx & Hld & W).
+      exists m. split; [exact Ho|]. split; [exact Hn|]. right. split; [reflexivity|]. exists b, ridx. rewrite Hc. split; [exact Hld|exact W].
+    - set (es := e0 :: es') in *.
+      assert (Hne : es <> []) by discriminate.
+      assert (Hsb : sorted_strictb (map fst es) = true) by (apply sorted_strictb_SS; exact Hs).
+      destruct (written_file_wf compress decompress wc codec_ok es _ s lg m HwL HwI Hrun Hne Hsb H64 Hmem)
+        as (bstore & W & Hcont & _ & Hcd & Hcnt & Hlv & _).
+      destruct (written_file_roundtrip compress decompress wc codec_ok es _ s lg m HwL HwI HwK Hrun Hne Hsb H64 Hmem
+                  ltac:(change U32_MAX with 4294967295 in Hlen; lia)) as (Ho & _).
+      exists m. split; [exact Ho|]. split; [exact Hcnt|]. left. exists bstore. rewrite Hcd, Hlv. split; [exact W|exact Hcont].
+  Qed.
+
   Section WithMf.
     Variable mf : mergefn.
     Hypothesis mf_values_ok : forall n k vs v, mf n k vs = Done v -> len v <= U32_MAX.
@@ -455,21 +461,21 @@ Section Storages.
       file_sorter_run c mf ins = Fail EFuel \/ file_sorter_run c mf ins = sorter_run c mf ins.
     Proof.
       intro Hb. unfold file_sorter_run.
-      destruct (gf_refines (fun _ => write_chunk_file) (fun _ => merge_files) rep (fun e => e = EFuel) mf mf_values_ok) with (c := c) (ins := ins)
+      destruct (gf_refines (fun _ => write_chunk_file) (fun _ => (merge_files decompress)) (rep decompress) (fun e => e = EFuel) mf mf_values_ok) with (c := c) (ins := ins)
         as [(e & E & ->)|E]; [| |exact Hb|left; exact E|right; exact E].
       - intros n es Hs Hok Hl. destruct (write_chunk_file_spec es Hs Hok Hl) as [E|(f & E & R)]; [left; exists EFuel; auto|right; exists f; auto].
-      - intros n calls fs ess HF. right. exact (merge_files_lists mf calls fs ess HF).
+      - intros n calls fs ess HF. right. exact (merge_files_lists decompress mf calls fs ess HF).
     Qed.
 
     Theorem file_sorter_chunks c ins fs1 x : len ins + 1 <= U32_MAX ->
       f_inserts c mf (f_new c) ins = Done fs1 -> f_finish mf fs1 = Done x ->
       exists st1 y, s_inserts c mf (s_new c) ins = Done st1 /\ s_finish mf st1 = Done y /\
-        fst x = fst y /\ Forall2 rep (snd x) (snd y).
+        fst x = fst y /\ Forall2 (rep decompress) (snd x) (snd y).
     Proof.
       intros Hb. unfold f_inserts, f_finish.
-      apply (gf_chunks (fun _ => write_chunk_file) (fun _ => merge_files) rep (fun e => e = EFuel) mf mf_values_ok); [| |exact Hb].
+      apply (gf_chunks (fun _ => write_chunk_file) (fun _ => (merge_files decompress)) (rep decompress) (fun e => e = EFuel) mf mf_values_ok); [| |exact Hb].
       - intros n es Hs Hok Hl. destruct (write_chunk_file_spec es Hs Hok Hl) as [E|(f & E & R)]; [left; exists EFuel; auto|right; exists f; auto].
-      - intros n calls fs ess HF. right. exact (merge_files_lists mf calls fs ess HF).
+      - intros n calls fs ess HF. right. exact (merge_files_lists decompress mf calls fs ess HF).
     Qed.
 
     (* ---------------- the storage under schedules (C11) ----------------
@@ -514,7 +520,7 @@ Section Storages.
       subst lg2 m2. rewrite Eb. reflexivity.
     Qed.
 
-    Lemma open_chunks_sched_spec n : forall fs ess i, Forall2 rep fs ess ->
+    Lemma open_chunks_sched_spec n : forall fs ess i, Forall2 (rep decompress) fs ess ->
       exists srcs, open_chunks_sched n i fs = Done (srcs, N.of_nat (total_len ess)) /\ Forall2 (yields rsrc rsnext) srcs ess.
     Proof.
       induction fs as [|f fs IH]; intros ess i H; inversion H as [|? es ? ess' (m & Eo & Ec & St) Hr]; subst; cbn [open_chunks_sched].
@@ -530,7 +536,7 @@ Section Storages.
       sched_sorter_run c mf ins = Fail EFuel \/ sched_sorter_run c mf ins = sorter_run c mf ins.
     Proof.
       intro Hb. unfold sched_sorter_run.
-      destruct (gf_refines write_chunk_file_sched merge_files_sched rep (fun e => e = EFuel) mf mf_values_ok) with (c := c) (ins := ins)
+      destruct (gf_refines write_chunk_file_sched merge_files_sched (rep decompress) (fun e => e = EFuel) mf mf_values_ok) with (c := c) (ins := ins)
         as [(e & E & ->)|E]; [| |exact Hb|left; exact E|right; exact E].
       - intros n es Hs Hok Hl. rewrite write_sched_eq.
         destruct (write_chunk_file_spec es Hs Hok Hl) as [E|(f & E & R)]; [left; exists EFuel; auto|right; exists f; auto].
@@ -585,7 +591,7 @@ Section Storages.
         subst lg2 m2. rewrite Eb. reflexivity.
     Qed.
 
-    Lemma open_chunks_faulty_spec n : forall fs ess i, Forall2 rep fs ess ->
+    Lemma open_chunks_faulty_spec n : forall fs ess i, Forall2 (rep decompress) fs ess ->
       open_chunks_faulty n i fs = Fail INJ \/
       exists srcs, open_chunks_faulty n i fs = Done (srcs, N.of_nat (total_len ess)) /\
         Forall2 (fun s es => yields rsrc rsnext s es \/ exists p, (length p <= length es)%nat /\ fails_after rsrc rsnext INJ s p) srcs ess.
@@ -609,7 +615,7 @@ Section Storages.
       (exists e, faulty_sorter_run c mf ins = Fail e /\ excused e) \/ faulty_sorter_run c mf ins = sorter_run c mf ins.
     Proof.
       intro Hb. unfold faulty_sorter_run.
-      apply (gf_refines write_chunk_file_faulty merge_files_faulty rep excused mf mf_values_ok); [| |exact Hb].
+      apply (gf_refines write_chunk_file_faulty merge_files_faulty (rep decompress) excused mf mf_values_ok); [| |exact Hb].
       - intros n es Hs Hok Hl. destruct (write_faulty_cases n es) as [E|E]; [left; exists INJ; split; [exact E|right; left; reflexivity]|].
         rewrite E. destruct (write_chunk_file_spec es Hs Hok Hl) as [E'|(f & E' & R)]; [left; exists EFuel; split; [exact E'|left; reflexivity]|right; exists f; auto].
       - intros n calls fs ess HF. unfold merge_files_faulty.
@@ -621,3 +627,22 @@ Section Storages.
     End Faulty.
   End WithMf.
 End Storages.
+
+(* ================= end to end: the sorter over real chunk files returns the specification's output ================= *)
+Theorem file_sorter_spec compress decompress wc :
+  (forall b z, compress (wc_codec wc) (wc_level wc) b = Done z -> decompress (wc_codec wc) z = Done b) ->
+  (forall b, exists z, compress (wc_codec wc) (wc_level wc) b = Done z) ->
+  wc_levels wc < 256 -> 1 <= wc_interval wc -> wc_codec wc <= 5 ->
+  forall (f : bytes -> list bytes -> bytes) (mf : mergefn),
+  (forall ord k vs, mf ord k vs = Done (f k vs)) ->
+  (forall k vss, vss <> [] -> Forall (fun vs => vs <> []) vss -> f k (map (f k) vss) = f k (concat vss)) ->
+  (forall k vs, len (f k vs) <= U32_MAX) ->
+  forall c ins out, len ins + 1 <= U32_MAX ->
+  file_sorter_run compress decompress wc c mf ins = Done out -> sorter_spec mf ins = Done out.
+Proof.
+  intros Hc Ht HL HI HK f mf Hpure Hflat Hlen c ins out Hb Hrun.
+  assert (Hv : forall n k vs v, mf n k vs = Done v -> len v <= U32_MAX).
+  { intros n k vs v E. rewrite Hpure in E. injection E as <-. apply Hlen. }
+  destruct (file_sorter_refines compress decompress wc Hc Ht HL HI HK mf Hv c ins Hb) as [E|E]; rewrite E in Hrun; [discriminate|].
+  exact (sorter_run_spec f mf Hpure Hflat c ins out Hrun).
+Qed.
